@@ -782,6 +782,9 @@ func (e *wssEnv) check(leftover bool) {
 			if o.ok != nil && o.ok() {
 				continue
 			}
+			if o.why == "duplicate-id" && tainted[o.from.id] {
+				continue // the state of this id is not known anymore (unattributable complete)
+			}
 			switch o.kind {
 			case "close":
 				r.Fail(prop, "missing-close", o.why, "%s: the server must close the connection with %v after %s, but it %s without closing", e.protoName(), o.codes, short(o.from.raw), when)
